@@ -303,6 +303,7 @@ def emit_fn(u, it, opts, header_lines, spec_lines, canary, recursor_file):
         for pair in opts['subst'].split(','):
             a, _, b = pair.partition('>')
             body, _ = X.rename_ident(body, a, b)
+            header, _ = X.rename_ident(header, a, b)
     ret = opts.get('ret', 'res')
     if header_lines:
         # R10: replacement header; check parameter names agree with the real one
